@@ -22,11 +22,13 @@ META = {
                    "attribute _LinearOp.matvec/apply_prec read is assigned by the constructor in the same configuration (preconditioner x band "
                    "structure); (L5) validation guards of amen_solve establish compatibility (E5 compat postcondition), operands and initial "
                    "guess are never written (effect analysis), names resolve and results are definitely assigned in solvers.py and "
-                   "_iterative_solvers.py. Does NOT decide the residual bound, convergence, conditioning or seed independence.",
+                   "_iterative_solvers.py; (L7) RETRY-LOOP: a loop that draws vectors until one is not orthogonal to a fixed vector is dominated by "
+                   "a test that the fixed vector is non-zero (a necessary condition of 'amen_solve returns': the residual of an exact initial "
+                   "guess is zero). Does NOT decide the residual bound, convergence, conditioning or seed independence.",
     "assumptions": ["real operands (the interface recursions do not conjugate the test core)",
                     "generic sizes: rank families at different positions / of different trains are independent",
                     "the band-diagonal products (shifted diagonals re-padded by their offset) are not contraction networks and are not decided"],
-    "floors": {"RESIDUAL-UNPREC": 1, "SCALE-FREE": 2, "ENRICH-WIDTH": 1, "ZERO-NORM": 6, "ARNOLDI-SEED": 1, "E5-CHAIN": 18, "IFACE-TYPE": 30, "DEF-ATTR": 12, "E3-PARAM": 3},
+    "floors": {"RESIDUAL-UNPREC": 1, "SCALE-FREE": 2, "ENRICH-WIDTH": 1, "ZERO-NORM": 6, "ARNOLDI-SEED": 1, "E5-CHAIN": 18, "IFACE-TYPE": 30, "DEF-ATTR": 12, "E3-PARAM": 3, "RETRY-LOOP": 1},
 }
 ANCHORS = ["solvers.amen_solve", "solvers._amen_solve_python", "solvers._local_product", "solvers._LinearOp.matvec", "solvers._LinearOp.apply_prec",
            "solvers._compute_phi_fwd_A", "solvers._compute_phi_bck_A", "solvers._compute_phi_fwd_rhs", "solvers._compute_phi_bck_rhs",
